@@ -356,7 +356,9 @@ int main(void)
     if (!strcmp(cmd, "load")) {
       if (!t) { printf("load-without-new\n"); continue; }
       r = hwloc_topology_load(t);
-      if (r < 0) { printf("load rc=-1 errno=%s\n", hwv_errno_class(errno)); hwloc_topology_destroy(t); t = NULL; continue; }
+      /* a failed load leaves the handle configurable again ("new" starts a fresh one): the following
+       * configuration lines and the next "load" REUSE it */
+      if (r < 0) { printf("load rc=-1 errno=%s\n", hwv_errno_class(errno)); continue; }
       loaded = 1; print_info(t); continue;
     }
     if (!strcmp(cmd, "destroy")) { if (t) hwloc_topology_destroy(t); t = NULL; loaded = 0;
